@@ -42,6 +42,10 @@ fn header(rng: &mut Rng) -> Item {
     Item::HeaderKV { key, value }
 }
 
+fn srcfile(rng: &mut Rng) -> Item {
+    Item::SourceFileJson { name: rng.pick(&["Main.kt", "R8$$SyntheticClass", "A.java"]).to_string() }
+}
+
 fn filler(rng: &mut Rng, kind: usize) -> Item {
     match kind % 5 {
         0 => Item::Noise(rng.pick(NOISE_CATALOGUE).to_string()),
@@ -88,7 +92,8 @@ fn gen_file(rng: &mut Rng, case: u64, thorough: bool) -> MapAst {
             items.push(Item::Noise(rng.pick(NOISE_CATALOGUE).to_string()));
         }
         for _ in 0..rng.below(4) {
-            items.push(header(rng));
+            let h = if rng.chance(1, 3) { srcfile(rng) } else { header(rng) };
+            items.push(h);
         }
         let n = match rng.below(5) {
             0 => 0,
@@ -120,13 +125,49 @@ pub fn run(ctx: &Ctx, rep: &mut Reporter) {
         let ast = gen_file(&mut rng, case_idx, thorough && !ctx.slow());
         let term = *rng.pick(&Term::ALL);
         let trailing = rng.chance(1, 2);
-        let text = ast.print(term, trailing, &mut rng);
+        // Records need not be aligned with physical lines: the record iterator resumes right
+        // behind the ':' of a class line and the '"}' of a sourceFile header. Now and then the
+        // terminator after such an item is left out.
+        let text = if case_idx % 3 == 0 {
+            let mut out = Vec::new();
+            let n = ast.items.len();
+            let mut joined = 0u64;
+            for (i, it) in ast.items.iter().enumerate() {
+                out.extend_from_slice(it.print().as_bytes());
+                let glue = matches!(it, Item::Class { .. } | Item::SourceFileJson { .. }) && i + 1 < n && rng.chance(1, 3);
+                if glue {
+                    joined += 1;
+                } else if i + 1 < n || trailing {
+                    out.extend_from_slice(match term {
+                        Term::Lf => b"\n".as_slice(),
+                        Term::CrLf => b"\r\n",
+                        Term::Cr => b"\r",
+                        Term::Mixed => *rng.pick(&[b"\n".as_slice(), b"\r\n", b"\r"]),
+                    });
+                }
+            }
+            if joined > 0 {
+                rep.count("files_with_records_not_aligned_to_lines", 1);
+            }
+            out
+        } else {
+            ast.print(term, trailing, &mut rng)
+        };
         let exp = folds(&ast);
         let r = guarded(|| {
             let s = cur::summary(&text);
             let hli = cur::has_line_info(&text);
             let valid = cur::is_valid(&text);
             rep.count("evaluations", 3);
+            let (m1, m2) = cur::metadata_twice(&text);
+            rep.count("evaluations", 2);
+            if m1 != (hli, valid, s.clone()) || m2 != m1 {
+                let mut d = Json::obj();
+                d.set("mapping_head", text_json(&text[..text.len().min(2000)]));
+                d.set("first", Json::s(format!("{m1:?}")));
+                d.set("second", Json::s(format!("{m2:?}")));
+                rep.violation(case_idx, "folds", "metadata answers change when asked again, in another order or on a clone", d);
+            }
             rep.count("files", 1);
             rep.distinct(Fp::new().bytes(&text).get());
             // where does the decisive record lie
